@@ -16,7 +16,7 @@ import (
 	"verif/harness/sm"
 )
 
-const ruleC02 = "twin collections in one database: A is never indexed, B carries a generated index set over {x, xy, y, n, n.a, s, t, u, _id} created before, between and after the writes; every write (insert, save, replace, point and bulk update/delete with uniquely determined targets) is applied to both with identical ids. Each generated query (criteria biased to indexed fields, nil / field-reference operands, In/Like/Exists/Contains and negations, Or/Not nesting, every sort direction, skip/limit) is run with FindAll and Count on both: same error class, same id set, same sequence of sort-key tuples (absent = nil), same Count, and both results admissible for the reference model; after bulk writes the complete contents of A and B are equal; occasionally both twins are dropped and re-created under the same names with the same ids and changed values, and after every catalog change the raw key space is audited so that no index entry of an earlier incarnation survives. A counting decorator records whether B's plan positioned a cursor inside an index. An evaluation is one compared query; non-trivial when B's plan seeked into an index and the expected result is neither empty nor the whole collection, or a sort was served by the index; distinct = distinct (query, contents, index set)."
+const ruleC02 = "twin collections in one database: A is never indexed, B carries a generated index set over {x, xy, y, n, n.a, s, t, u, _id} created before, between and after the writes; every write (insert, save, replace, point and bulk update/delete with uniquely determined targets) is applied to both with identical ids. Each generated query (criteria biased to indexed fields, nil / field-reference operands, In/Like/Exists/Contains and negations, Or/Not nesting, every sort direction, skip/limit) is run with FindAll and Count on both: same error class, same id set, same sequence of sort-key tuples (absent = nil), same Count, and both results admissible for the reference model; after bulk writes the complete contents of A and B are equal; occasionally both twins are dropped and re-created under the same names with the same ids and changed values, and after every catalog change the raw key space is audited so that no index entry of an earlier incarnation survives. A second part creates and drops indexes while other clients write (schedule perturbed at every store call); the history, whose sequential epilogue scans every index in order, must be linearizable. A counting decorator records whether B's plan positioned a cursor inside an index. An evaluation is one compared query; non-trivial when B's plan seeked into an index and the expected result is neither empty nor the whole collection, or a sort was served by the index; distinct = distinct (query, contents, index set)."
 
 func c02Profile() *sm.Profile {
 	return &sm.Profile{
@@ -192,6 +192,21 @@ func idsOf(docs []cs.Doc) []string {
 }
 
 func TestC02(t *testing.T) {
+	t.Run("twins", testC02Twins)
+	t.Run("concurrent", func(t *testing.T) {
+		// an index created or dropped while other clients write: afterwards index-served scans (the
+		// sequential epilogue) must still return what a full scan returns
+		col := collector("C02", ruleC02)
+		check(t, "C02", cases(60, 1500), 0, func(rt *rapid.T) {
+			h, verdict := concurrentCase(rt, "C02", []string{"createindex", "createindex", "dropindex", "insert", "insert", "updatebyid", "update", "deletebyid", "find"})
+			col.Case(overlapWrite(h), hashOf(h.Setup, len(h.Ops), h.Ops[0].Op), func() interface{} {
+				return map[string]interface{}{"mode": "concurrent", "backend": h.Backend, "operations": len(h.Ops), "verdict": verdict}
+			}, "concurrent", "verdict:"+verdict)
+		})
+	})
+}
+
+func testC02Twins(t *testing.T) {
 	col := collector("C02", ruleC02)
 	backends := []string{run.Bbolt, run.Bbolt, run.BadgerMem}
 	check(t, "C02", cases(3000, 80000), ev.Scale(22, 32), func(rt *rapid.T) {
